@@ -8,6 +8,22 @@ TB_COMMON = [
 ]
 
 PROPS = {
+    "C01": dict(
+        lean_props=["MayVerif.Props.C01"],
+        families=[
+            dict(mode="live", name="join", quick=360, thorough=6000, nontrivial=r" join\.to_wake@\d+ opt\.store "),
+        ],
+        trusted_base=TB_COMMON + [
+            "Blocker (park/unpark of the joiner) is the abstract binary token at this layer (C02 is its own check); in the join traces unpark/park are not observed, the replay executes unpark with the take that found the blocker and lets park return only if the model's token is there",
+            "AtomicOption (crossbeam AtomicCell swap/take) is an atomic option cell; the generator's context switch, panic capture (get_panic_data) and the stack pool's memory are parameters",
+        ],
+        assumptions=[
+            "fair scheduling for the not-stuck theorems (they say: the token is there / the queues are empty, not that the OS runs the thread)",
+            "join(self) consumes the handle: at most one join per coroutine (Rust ownership)",
+            "a joiner cancelled while parked inside wait() is not modelled (C09)",
+        ],
+        rule="live mode on the real runtime, 1-3 workers, seeded perturbation: a coroutine that yields 0-3 times and returns / panics / is cancelled, 1-2 joiners (main, threads, coroutines) racing is_done/wait/join with the finish; non-trivial = a joiner registered its blocker (to_wake.store in the trace); distinct = SHA-1 of the canonical trace",
+    ),
     "C03": dict(
         lean_props=["MayVerif.Props.C03"],
         # regenerates lean/MayVerif/Generated/ConstsMpsc.lean from the current may_queue/src/{mpsc,spsc}.rs
